@@ -141,7 +141,9 @@ func ReadFile(r io.Reader) (File, []string, error) {
 			}
 			f.Consts = append(f.Consts, cons)
 		case tokenKindCloseCurly, tokenKindSemicolon:
-			// the record readers may leave their closing token to this loop
+			// the record readers may leave their closing token to this loop; it neither
+			// uses up nor cancels a pending attribute or doc comment
+			continue
 		default:
 			// anything else at the top level is a typo or a leftover; skipping it would silently
 			// drop the definition it was meant to start
